@@ -108,7 +108,7 @@ Definition res_invalid (o : ores) : bool :=
   | None => true                                                   (* unset sub-message *)
   | Some r => forallb (fun kv => (snd kv =? 0)%Z) r || res_has_negative r   (* empty, all zero, or some negative *)
   end.
-Definition invalid (s : ostate) (op : oop) : bool :=
+Definition invalid_core (s : ostate) (op : oop) : bool :=
   match op with
   | OpAlloc r =>
       negb (rq_partition_ok r) ||
@@ -128,6 +128,16 @@ Definition invalid (s : ostate) (op : oop) : bool :=
   | OpAppRemove id => negb (app_known s id)
   | _ => false
   end.
+
+(* an update of an existing foreign allocation that names another node than the one it is on (an allocation does not
+   move): the property wants it refused; the code accepts it (Core/GuardProofs.foreign_move_not_refused) *)
+Definition foreign_moved (s : ostate) (op : oop) : bool :=
+  match op with
+  | OpAlloc r => rq_foreign r && rq_partition_ok r &&
+                 match find_alloc (s_foreign s) (rq_key r) with Some x => negb (oa_node x =? rq_node r) | None => false end
+  | _ => false
+  end.
+Definition invalid (s : ostate) (op : oop) : bool := invalid_core s op || foreign_moved s op.
 
 (* ---- the front as a step function: a refused request returns the state it was given ---- *)
 Inductive front_result := Refused (s : ostate) (answer : option oevent) | Passed.
